@@ -11,7 +11,7 @@ use oracle::tables;
 use serde_json::json;
 
 pub const ID: &str = "C09";
-pub const FAMS: [&str; 6] = ["byte-at-position", "class-pattern", "two-bytes", "planted-foreign", "single-class-long", "three-bytes"];
+pub const FAMS: [&str; 8] = ["byte-at-position", "class-pattern", "two-bytes", "planted-foreign", "single-class-long", "three-bytes", "real-world-prefixes", "token-strings"];
 
 const BG: [&[u8]; 3] = [b"0123456789", b"AZ $%*+-./:K7", b"az,!\x00\x7f\x80\xff@[`{"];
 const REPS: [[u8; 2]; 3] = [[b'0', b'9'], [b'A', b':'], [b'a', 0xE9]];
@@ -61,6 +61,21 @@ pub fn jobs(ctx: &Ctx) -> Vec<Job> {
             jobs.push(explicit(FAMS[2], vec![a, b], k, ctx));
         }
     }
+    // what people put into QR codes: every dictionary prefix (URL schemes in both cases, WIFI:, vCard, tel:,
+    // byte order marks, escapes ...) alone and with tails of its own class; the oracle class of each string
+    // is computed from the 45-character set, not from the dictionary
+    for (_, payload) in crate::job::prefix_sweep(ctx.seed) {
+        k += 1;
+        jobs.push(explicit(FAMS[6], payload, k, ctx));
+    }
+    // strings assembled from dictionary tokens, per class and length
+    for class in 0..3usize {
+        for i in 0..ctx.tier.pick(400usize, 20_000) {
+            k += 1;
+            let len = 1 + (mix(ctx.seed, k) as usize) % if i % 8 == 0 { 600 } else { 60 };
+            jobs.push(Job { fam: FAMS[7], class, len, gen: crate::job::GEN_TOKENS, seed: mix(ctx.seed, k), level: Some((k % 4) as usize), mask: Some((k % 8) as usize), ..Default::default() });
+        }
+    }
     // long strings of one class with one foreign byte planted at a random position
     let mut rng = Rng::new(ctx.seed ^ 0xc09);
     let n = ctx.tier.pick(6_000, ctx.scale(500_000));
@@ -94,7 +109,7 @@ pub fn jobs(ctx: &Ctx) -> Vec<Job> {
         for class in 0..3usize {
             for len in (0..2000).step_by(7) {
                 k += 1;
-                jobs.push(Job { fam: FAMS[4], class, len, gen: (k % 7) as usize, seed: mix(ctx.seed, k), level: Some(0), mask: Some((k % 8) as usize), ..Default::default() });
+                jobs.push(Job { fam: FAMS[4], class, len, gen: (k % crate::job::GEN_COUNT as u64) as usize, seed: mix(ctx.seed, k), level: Some(0), mask: Some((k % 8) as usize), ..Default::default() });
             }
         }
     }
